@@ -54,14 +54,16 @@ theorem update_many_matched_eq_find (cfg : Cfg) (now : Int) (c c1 c' : Coll) (fs
     res.n = sel.length ∧ res.nModified ≤ res.n ∧ res.upserted = none :=
   Proofs.C10.update_many_matched_eq_find cfg now c c1 c' fs u sel res he hne hi hg hs h
 
-/-- `update_one` has a target iff something is selected. -/
-theorem update_one_target_iff (cfg : Cfg) (now : Int) (c c1 c' : Coll) (fs : Fields) (u : Val)
+/-- `update_one` has a target iff something is selected (on collections whose store keys are
+    pairwise distinct and well behaved — every reachable one, see C05; without that hypothesis the
+    statement is refuted by `update_one_target_iff_counterexample`: two entries under one key). -/
+theorem update_one_target_iff_partial (cfg : Cfg) (now : Int) (c c1 c' : Coll) (fs : Fields) (u : Val)
     (sel : List (Val × Val)) (res : UpdateResult)
-    (he : expire now c = .ok c1) (hne : c1.docs ≠ [])
+    (he : expire now c = .ok c1) (hne : c1.docs ≠ []) (hi : IdInv c) (hg : GoodKeys c)
     (hs : selectDocs (patchDT (.doc fs)) c1.docs = .ok sel)
     (h : applyUpdateColl cfg now c (.doc fs) u false false = (c', .ok res)) :
     res.n = min sel.length 1 :=
-  Proofs.C10.update_one_target_iff cfg now c c1 c' fs u sel res he hne hs h
+  Proofs.C10.update_one_target_iff_alt' cfg now c c1 c' fs u sel res he hne hi hg hs h
 
 /-- non-vacuity: a filter selecting a proper non-empty subset of a three-document collection -/
 example : (match selectDocs (.doc [("a", .doc [("$gt", .int 1)])])
